@@ -1,1 +1,116 @@
-// c14
+//! C14 — the file checksum is the CCSDS modular checksum, however the data is read.
+//! Lengths and chunk sizes are CONCRETE shapes enumerated inside each harness (symbolic ones run out of memory on
+//! BufReader's 8 KiB buffer); the content is symbolic.
+use cfdp_core::filestore::{ChecksumType, FileChecksum};
+use std::io::{Cursor, Read, Seek, SeekFrom};
+
+const CAP: usize = 16;
+/// reader that hands out at most `chunk` bytes per read (a short-reading file / pipe)
+struct Chunky {
+    data: [u8; CAP],
+    len: usize,
+    pos: usize,
+    chunk: usize,
+}
+impl Read for Chunky {
+    fn read(&mut self, buf: &mut [u8]) -> std::io::Result<usize> {
+        let rem = self.len - self.pos;
+        let mut n = if rem < self.chunk { rem } else { self.chunk };
+        if buf.len() < n {
+            n = buf.len();
+        }
+        buf[..n].copy_from_slice(&self.data[self.pos..self.pos + n]);
+        self.pos += n;
+        Ok(n)
+    }
+}
+impl Seek for Chunky {
+    fn seek(&mut self, p: SeekFrom) -> std::io::Result<u64> {
+        match p {
+            SeekFrom::Start(x) => {
+                self.pos = x as usize;
+                Ok(x)
+            }
+            _ => {
+                self.pos = 0;
+                Ok(0)
+            }
+        }
+    }
+}
+/// the CCSDS definition: wrapping sum of the big-endian words of the zero-padded content
+fn reference(data: &[u8; CAP], len: usize) -> u32 {
+    let mut want: u32 = 0;
+    let mut i = 0;
+    while i < len {
+        want = want.wrapping_add((data[i] as u32) << (8 * (3 - (i % 4))));
+        i += 1;
+    }
+    want
+}
+fn case(data: &[u8; CAP], len: usize, chunk: usize) {
+    let mut r = Chunky { data: *data, len, pos: kani::any(), chunk };
+    kani::assume(r.pos <= len);
+    let got = r.checksum(ChecksumType::Modular).unwrap();
+    assert!(got == reference(data, len), "modular checksum == CCSDS definition, whatever the chunking and the initial position");
+}
+
+macro_rules! chunk_harness {
+    ($name:ident, [$($len:expr),*], [$($chunk:expr),*]) => {
+        #[kani::proof]
+        #[kani::unwind(19)]
+        fn $name() {
+            let data: [u8; CAP] = kani::any();
+            for len in [$($len as usize),*] {
+                for chunk in [$($chunk as usize),*] {
+                    case(&data, len, chunk);
+                }
+            }
+            kani::cover!(true, "end");
+        }
+    };
+}
+//# funcs=FileChecksum::checksum (Modular) over BufReader; bound=lengths {0,1,2,3,4,5,7,8}, whole reads (chunk 16), content symbolic, initial position symbolic; stubs=none
+chunk_harness!(c14_q_whole_reads, [0, 1, 2, 3, 4, 5, 7, 8], [16]);
+//# funcs=FileChecksum::checksum (Modular); bound=lengths {1,5,8,11}, reader returns at most 1 or 2 bytes per read; stubs=none
+chunk_harness!(c14_q_short_reads_1_2, [1, 5, 8, 11], [1, 2]);
+//# funcs=FileChecksum::checksum (Modular); bound=lengths {5,8,11}, reader returns at most 3 or 5 bytes per read; stubs=none
+chunk_harness!(c14_q_short_reads_3_5, [5, 8, 11], [3, 5]);
+//# funcs=FileChecksum::checksum (Modular); bound=lengths {8,11,16}, reader returns at most 4, 7 or 9 bytes per read; stubs=none
+chunk_harness!(c14_q_short_reads_4_7_9, [8, 11, 16], [4, 7, 9]);
+//# funcs=FileChecksum::checksum (Modular); bound=lengths {9,10,12,13,14,15,16} whole reads and chunk 6; stubs=none
+chunk_harness!(c14_t_more_lengths, [9, 10, 12, 13, 14, 15, 16], [16, 6]);
+
+//# funcs=FileChecksum::checksum over Cursor<Vec<u8>> (Modular and Null); bound=lengths {0,3,6}, content symbolic; stubs=none
+#[kani::proof]
+#[kani::unwind(19)]
+fn c14_q_cursor_and_null() {
+    let data: [u8; CAP] = kani::any();
+    for len in [0usize, 3, 6] {
+        let mut c = Cursor::new(data[..len].to_vec());
+        let got = c.checksum(ChecksumType::Modular).unwrap();
+        assert!(got == reference(&data, len), "modular checksum of a cursor");
+        let null = c.checksum(ChecksumType::Null).unwrap();
+        assert!(null == 0, "the null checksum is 0");
+        std::mem::forget(c);
+    }
+    kani::cover!(true, "end");
+}
+
+//# funcs=FileChecksum::checksum (Modular); bound=two contents of 7 bytes that differ in exactly one (symbolic) position: the sums differ; stubs=none
+#[kani::proof]
+#[kani::unwind(19)]
+fn c14_q_single_byte_change() {
+    let a: [u8; CAP] = kani::any();
+    let mut b = a;
+    let i: usize = kani::any();
+    kani::assume(i < 7);
+    b[i] = kani::any();
+    kani::assume(b[i] != a[i]);
+    let mut ra = Chunky { data: a, len: 7, pos: 0, chunk: 16 };
+    let mut rb = Chunky { data: b, len: 7, pos: 0, chunk: 16 };
+    let sa = ra.checksum(ChecksumType::Modular).unwrap();
+    let sb = rb.checksum(ChecksumType::Modular).unwrap();
+    assert!(sa != sb, "sender and receiver disagree on any change of a single byte");
+    kani::cover!(true, "end");
+}
